@@ -246,6 +246,19 @@ func (e *Engine) callContract(st *State, fr *Frame, callee *ssa.Function, c *Con
 		cfr.names[n] = NameBinding{V: v}
 	}
 	e.calleeEntryHeld(st, c, key, pos, false)
+	// a slice argument of small literal length (a variadic call): seed the index terms the callee's quantified
+	// clauses are triggered on (literal indices are not wrapped in idx(), so nothing would match otherwise)
+	for _, a := range args {
+		if _, ok := a.T.Underlying().(*types.Slice); ok && len(a.L) == 4 && isNumeral(a.L[2]) {
+			if n, okn := constInt(a.L[2].S); okn && n > 0 && n <= 8 {
+				f := e.ctx.Fun("idx", []Sort{SInt}, SInt)
+				e.ctx.Axiom("idx_id", "(forall ((x Int)) (! (= (idx x) x) :pattern ((idx x))))")
+				for i := 0; i < n; i++ {
+					st.Assume(T(SBool, "(= (%s %d) %d)", f, i, i))
+				}
+			}
+		}
+	}
 	isAction := e.atomicMode() && c.Trusted
 	if isAction {
 		e.interfere(st)
